@@ -34,6 +34,10 @@ def norm(e, aliases):
 
 
 def run(repo, res):
+    from . import rowspace
+
+    res.rule("R10.4", "fit.node_posteriors() rows belong to the right nodes: whole-grid values are scattered to node positions only through the grid's own nonfixed_nodes order")
+    rowspace.run(repo, res, "R10.4")
     res.rule("R10.1", "clone consistency: the child-to-parent message recomputed in outside_pass (non-cached branch) is, after inlining locals and applying the aliases self.inside = inside, child = edge.child (group key), the same expression tree as the message multiplied in by inside_pass for a non-fixed child; cached and recomputed forms normalise by the denominator of the same node")
     res.rule("R10.2", "the outside pass combines, for each edge, outside[parent] with inside[parent] / message, and the posterior is inside * outside; the inside pass divides each node by the denominator it records")
     res.rule("R10.3", "the per-edge mutation counts entering the likelihood are exact for mutations above a root: a mutation's edge id is tested against tskit.NULL before it indexes the count array (numpy would credit -1 to the last edge)")
@@ -135,7 +139,7 @@ def run(repo, res):
     res.require(oko, "R10.2", "discrete.BeliefPropagation.outside_pass divides the child's outside value by the child's denominator", "outside normalisation differs", repo.loc(op))
 
 
-VARIANTS = [dict(name="mut-edge-unguarded-vectorised", mod="discrete", expect="fire", rule="R10.3", old="        for m in ts.mutations():\n            if m.edge != tskit.NULL:\n                mut_edges[m.edge] += 1\n", new="        np.add.at(mut_edges, ts.mutations_edge, 1)\n")] + [
+VARIANTS = [dict(v, rule="R10.4") for v in __import__("sa.rules.rowspace", fromlist=["VARIANTS"]).VARIANTS] + [dict(name="mut-edge-unguarded-vectorised", mod="discrete", expect="fire", rule="R10.3", old="        for m in ts.mutations():\n            if m.edge != tskit.NULL:\n                mut_edges[m.edge] += 1\n", new="        np.add.at(mut_edges, ts.mutations_edge, 1)\n")] + [
     dict(name="outside-forgets-spanfrac", mod="discrete", expect="fire", rule="R10.1", old="                    daughter_val = self.lik.scale_geometric(\n                        spanfrac, self.lik.make_lower_tri(self.inside[edge.child])\n                    )\n                    edge_lik = self.lik.get_inside(daughter_val, edge)\n                    cur_g_i", new="                    daughter_val = self.lik.make_lower_tri(self.inside[edge.child])\n                    edge_lik = self.lik.get_inside(daughter_val, edge)\n                    cur_g_i"),
     dict(name="outside-uses-parent-inside", mod="discrete", expect="fire", rule="R10.1", old="                        spanfrac, self.lik.make_lower_tri(self.inside[edge.child])\n                    )\n                    edge_lik = self.lik.get_inside(daughter_val, edge)\n                    cur_g_i", new="                        spanfrac, self.lik.make_lower_tri(self.inside[edge.parent])\n                    )\n                    edge_lik = self.lik.get_inside(daughter_val, edge)\n                    cur_g_i"),
     dict(name="spanfrac-differs", mod="discrete", expect="fire", rule="R10.1", old="                spanfrac = edge.span / self.spans[child]", new="                spanfrac = edge.span / self.spans[edge.parent]"),
